@@ -48,6 +48,46 @@ func C09(r *h.Run) {
 		}
 	}
 
+	// the same for the length a unary Connect body declares in Content-Length: 8 MiB declared
+	// against a limit of 1 KiB, three bytes present, in both directions
+	for _, dir := range []string{"client reads a response", "handler reads a request"} {
+		n := 1024
+		declared := int64(8 << 20)
+		var m0, m1 runtime.MemStats
+		var p any
+		runtime.GC()
+		runtime.ReadMemStats(&m0)
+		if dir == "client reads a response" {
+			res := doCall(envCfg{Proto: "connect", Max: n}, "unary", func() *http.Response {
+				resp := h.NewResponse(200, http.Header{"Content-Type": {"application/toy"}, "Content-Length": {fmt.Sprint(declared)}}, h.NewChunkBody([][]byte{[]byte("abc")}, h.FinUnexpectedEOF), nil)
+				resp.ContentLength = declared
+				return resp
+			})
+			p = res.panicked
+		} else {
+			handler := connect.NewUnaryHandler("/verif.Svc/Unary", func(_ context.Context, req *connect.Request[h.Raw]) (*connect.Response[h.Raw], error) {
+				return connect.NewResponse(&h.Raw{B: []byte("ok")}), nil
+			}, envCfg{Proto: "connect", Max: n}.handlerOpts()...)
+			req := httptest.NewRequest(http.MethodPost, "/verif.Svc/Unary", nil)
+			req.Body = h.NewChunkBody([][]byte{[]byte("abc")}, h.FinUnexpectedEOF)
+			req.ContentLength = declared
+			req.Header.Set("Content-Length", fmt.Sprint(declared))
+			req.Header.Set("Content-Type", "application/toy")
+			p = safely(func() { handler.ServeHTTP(httptest.NewRecorder(), req) })
+		}
+		runtime.ReadMemStats(&m1)
+		alloc := m1.TotalAlloc - m0.TotalAlloc
+		in := map[string]any{"proto": "connect", "kind": "unary", "direction": dir, "limit": n, "declared_content_length": declared, "present": 3}
+		r.Eval("length_lie_alloc", fmt.Sprint("content-length", dir))
+		r.Sample("length_lie_alloc", map[string]any{"in": in, "total_alloc_delta": alloc})
+		if p != nil {
+			r.Fail(h.Failure{Key: "limit/panic", Family: "length_lie_alloc", What: fmt.Sprint("panic: ", p), Input: in})
+		}
+		if alloc > uint64(8*n+256*1024) {
+			r.Fail(h.Failure{Key: "limit/buffers-far-more-than-limit", Family: "length_lie_alloc", What: "a false Content-Length made the receiver allocate substantially more than the read limit", Input: in, Actual: alloc})
+		}
+	}
+
 	type item struct {
 		frame   []byte
 		deliver []byte // nil slice with ok=false means "must be refused"
